@@ -100,3 +100,18 @@ Theorem C15_blocked_space_lists :
   lu_blocked_rhs LU = "dual_to_range_spaces"%string.
 Proof. exact blocked_space_lists. Qed.
 Print Assumptions C15_blocked_space_lists.
+
+(* recorded finding C15:cg-strong:...: the strong-form system matrix M^-1 W handed to CG is in general not symmetric even
+   for symmetric W and M (witness over Z) ... *)
+Theorem C15_strong_system_not_symmetric :
+  exists (W Mi : M BinNums.Z), symmetric W /\ symmetric Mi /\ ~ symmetric (mmul BinNums.Z BinNums.Z0 BinInt.Z.add BinInt.Z.mul Mi W).
+Proof. exact strong_system_not_symmetric. Qed.
+Print Assumptions C15_strong_system_not_symmetric.
+
+(* ... but it is self-adjoint with respect to the inner product of the mass matrix: M (M^-1 W) = W *)
+Theorem C15_strong_system_M_selfadjoint : forall (A : Type) (r0 r1 : A) (radd rmul rsub : A -> A -> A) (ropp : A -> A),
+  ring_theory r0 r1 radd rmul rsub ropp eq -> forall (W Mm Mi : M A) (n : nat), rows W = n -> cols Mi = n ->
+  meq A (mmul A r0 radd rmul Mm Mi) (mid A r0 r1 n) ->
+  meq A (mmul A r0 radd rmul Mm (mmul A r0 radd rmul Mi W)) W.
+Proof. exact strong_system_M_selfadjoint. Qed.
+Print Assumptions C15_strong_system_M_selfadjoint.
